@@ -168,13 +168,23 @@ def ref_operands(vt: Optional[str], r: Any, v: Any, now: int):
     if vt == "swap":
         return v, r
     if vt in ("age", "expiration"):
-        if isinstance(v, bool) or not isinstance(v, int) or v < 0 or v * 86400 > DUR_MAX or not isinstance(r, str):
+        if isinstance(v, bool) or not isinstance(v, (int, float)) or v < 0 or v * 86400 > DUR_MAX or not isinstance(r, str):
             return None
         try:
             t = parse_ts(r)
         except ValueError:
             return None
-        return (now - v * 86400, t) if vt == "age" else (t, now + v * 86400)
+        from fractions import Fraction
+        secs = Fraction(v) * 86400
+        if secs.denominator != 1:
+            # whole seconds of a fractional day count (the translator's documented truncation); counts whose
+            # product sits within 1e-9 of a whole second are left out (float rounding of the product)
+            fl = int(secs)
+            if (fl + 1 - secs) <= secs * Fraction(1, 10 ** 9):
+                return None
+            secs = Fraction(fl)
+        secs = int(secs)
+        return (now - secs, t) if vt == "age" else (t, now + secs)
     return None
 
 
@@ -338,7 +348,12 @@ class C19(Prop):
             "DEL, non-ASCII, astral) as values, keys, tag names; dur: day/second counts 0..200, powers of ten to 10^7, unit "
             "boundaries +-1, randoms; table: every (rewriter, resource type) entry of the six tables through representative "
             "filters; cel: every table entry and emitted table text plus single-character deletions/insertions/replacements "
-            "(lexer+grammar model vs. real parser); vfrom: value_from url/format/expr strings. non-trivial = a clause whose resource value is on the "
+            "(lexer+grammar model vs. real parser); seq: sequences of 2-6 translator calls in one process sharing a key / text / "
+            "count across entry points and contexts (value, security-group, kms-alias, credential, event, key_to_cel with "
+            "and without context, q with either quote, secs vs age, value_to_cel with different op / value_type), every "
+            "ordered pair plus random longer histories, each output compared with the same call on a freshly executed "
+            "copy of the module; dur also takes fractional and textual counts (below one second, around whole seconds); "
+            "vfrom: value_from url/format/expr strings. non-trivial = a clause whose resource value is on the "
             "boundary (reference decision flips within the generated neighbourhood), a string containing a character q must "
             "escape, a count that is 0 or a multiple of a unit, any table entry")
 
@@ -360,7 +375,10 @@ class C19(Prop):
             cases.append({"kind": "lit", "text": '"' + body + '"'})
         # -- keys --------------------------------------------------------------------------------------
         keys = ["k", "Key.Subkey", "a.b.c", "tag:Name", "tag:app.owner", "tag:a\"b", "tag:", "tag:x.y.z", "length(Items)",
-                "a\\b", "a\"b.c'd", "tag:é", "a..b", ".a", "a.", "tag:tag:x", "weird key", "tag:new\nline"]
+                "a\\b", "a\"b.c'd", "tag:é", "a..b", ".a", "a.", "tag:tag:x", "weird key", "tag:new\nline",
+                # look-alikes of the special forms: only the exact lower-case `tag:` prefix and `name(arg)` are special
+                "Tag:Name", "TAG:x", "tags:x", "tag", "tag.x", "xtag:y", "length(a)", "length(a).b", "Length(a)", "size(a)",
+                "length (a)", "length()", "a(b)c", "true", "None", "0"]
         for _ in range(60 if quick else 1500):
             s = rand_str(rng, 5).replace("(", "")
             form = rng.choice(["plain", "tag", "dotted"])
@@ -381,6 +399,19 @@ class C19(Prop):
             cases.append({"kind": "dur", "unit": "secs", "n": n})
             if n <= 10 ** 7 or rng.random() < 0.2:
                 cases.append({"kind": "dur", "unit": "age", "n": n})
+        # fractional counts: the translator keeps whole seconds (`int(float(period))`); a positive count
+        # below one second, and counts just below / above a whole second, must still give a valid literal
+        fracs = [0.4, 0.5, 0.999999, 1e-05, 1e-09, 0.1, 1.0000001, 1.5, 59.999, 60.4, 3599.9999, 86399.5, 86400.5,
+                 "0.4", "0", "0.0", "1e-05", "7", "7.9", " 12 "]
+        dfracs = [1e-05, 2e-05, 1e-06, 1e-09, 0.001, 0.011, 0.084, 0.25, 0.5, 1.5, 29.99999, 1 / 86400, 0.9999 / 86400,
+                  1.0001 / 86400, 2 / 86400, "0.5", "1e-05", "0.0", "30"]
+        for _ in range(30 if quick else 2000):
+            fracs.append(round(rng.choice([0, 1, 59, 60, 3599, 86399, rng.randint(0, 10 ** 6)]) + rng.random(), rng.choice([1, 3, 6, 9])))
+            dfracs.append(round(rng.choice([0, 0, 1, 30, rng.randint(0, 4000)]) + rng.random() * rng.choice([1, 1e-3, 1e-5, 1e-7]), 12))
+        for x in fracs:
+            cases.append({"kind": "dur", "unit": "secs", "n": x})
+        for x in dfracs:
+            cases.append({"kind": "dur", "unit": "age", "n": x})
         # -- clauses -------------------------------------------------------------------------------------
         cases += self.clause_cases(rng, quick)
         # -- tables --------------------------------------------------------------------------------------
@@ -418,6 +449,8 @@ class C19(Prop):
             if t2 not in seen:
                 seen.add(t2)
                 cases.append({"kind": "cel", "text": t2})
+        # -- history independence: sequences of translator calls in ONE process ---------------------------
+        cases += self.seq_cases(rng, quick)
         # -- value_from ----------------------------------------------------------------------------------
         for _ in range(40 if quick else 1500):
             c = {"kind": "vfrom", "url": "s3://b/" + rand_str(rng, 5), "op": rng.choice(["in", "ni", "not-in", "intersect", None])}
@@ -427,6 +460,107 @@ class C19(Prop):
                 c["expr"] = rng.choice(["a.b", "a[?b==`x\\y`].c", "it's", "x{account_id}", "a\nb"] + [rand_str(rng, 6)])
             cases.append(c)
         return cases
+
+    def seq_cases(self, rng: random.Random, quick: bool) -> List[Dict[str, Any]]:
+        """the same key / text / count handed to different entry points and contexts, in every order"""
+        keys = ["GroupId", "tag:Owner", "a.b", "VpcId", "k", "GroupName", "length(Items)", "tag:app.owner"]
+        vals: List[Any] = ["team-a", "x\\y", 5, ["a", "b"], "True", 0]
+
+        def steps_for(key: str) -> List[Dict[str, Any]]:
+            v = rng.choice(vals)
+            op = rng.choice(["eq", "ne", "in", "le", "gt"]) if not isinstance(v, list) else rng.choice(["in", "ni", "intersect"])
+            if op == "in" and isinstance(v, int):
+                op = "eq"
+            pool = [
+                {"call": "primitive", "resource": "ec2", "filter": {"type": "value", "key": key, "op": op, "value": v}},
+                {"call": "primitive", "resource": "ec2", "filter": {"type": "security-group", "key": key, "op": op, "value": v}},
+                {"call": "primitive", "resource": "ec2", "filter": {"type": "value", "key": key, "value": "present"}},
+                {"call": "primitive", "resource": "ec2", "filter": {"type": "value", "key": key, "op": "eq", "value": "other"}},
+                {"call": "key", "key": key, "ctx": None},
+                {"call": "key", "key": key, "ctx": "sg"},
+                {"call": "key", "key": key, "ctx": "event"},
+                {"call": "rewrite", "resource": "ec2", "filters": [{"type": "value", "key": key, "op": op, "value": v}]},
+                {"call": "rewrite", "resource": "rds", "filters": [{"type": "security-group", "key": key, "op": "eq", "value": "sg-1"},
+                                                                     {"type": "value", "key": key, "op": "eq", "value": "sg-1"}]},
+                {"call": "primitive", "resource": "ec2", "filter": {"type": "kms-alias", "key": key, "op": "eq", "value": "a"}},
+                {"call": "primitive", "resource": "iam-user", "filter": {"type": "credential", "key": key, "op": "eq", "value": "a"}},
+                {"call": "primitive", "resource": "ec2", "filter": {"type": "event", "key": key, "op": "eq", "value": "a"}},
+            ]
+            return pool
+
+        shared = ["abc", 'q"uote', "it's", "back\\slash", "1d", "0s"]
+        nums: List[Any] = [0, 1, 30, 0.5, 86400, "7"]
+
+        def misc_steps() -> List[Dict[str, Any]]:
+            t = rng.choice(shared)
+            n = rng.choice(nums)
+            return [
+                {"call": "q", "s": t, "quote": "dq"}, {"call": "q", "s": t, "quote": "sq"},
+                {"call": "secs", "n": n}, {"call": "age", "n": n},
+                {"call": "value_to_cel", "key": "key", "op": "eq", "value": t, "vt": None},
+                {"call": "value_to_cel", "key": "key", "op": "eq", "value": t, "vt": "swap"},
+                {"call": "value_to_cel", "key": "key", "op": "ne", "value": t, "vt": None},
+                {"call": "value_to_cel", "key": "other", "op": "eq", "value": t, "vt": None},
+                {"call": "value_to_cel", "key": "key", "op": "gt", "value": n if not isinstance(n, str) else 7, "vt": "age"},
+                {"call": "value_to_cel", "key": "key", "op": "gt", "value": n if not isinstance(n, str) else 7, "vt": "expiration"},
+                {"call": "value_to_cel", "key": "key", "op": "gt", "value": n if not isinstance(n, str) else 7, "vt": "size"},
+            ]
+
+        out: List[Dict[str, Any]] = []
+        # every ordered pair over one key's pool (the shortest histories), then longer random ones
+        for key in keys[: 3 if quick else len(keys)]:
+            pool = steps_for(key)
+            for a in pool[:7]:
+                for b in pool[:7]:
+                    if a is not b:
+                        out.append({"kind": "seq", "steps": [a, b]})
+        for _ in range(120 if quick else 3000):
+            key = rng.choice(keys)
+            pool = steps_for(key) + misc_steps() + (steps_for(rng.choice(keys)) if rng.random() < 0.3 else [])
+            out.append({"kind": "seq", "steps": [rng.choice(pool) for _ in range(rng.randint(2, 6))]})
+        return out
+
+    # one translator call, on a given rewriter class
+    @staticmethod
+    def run_step(R, st: Dict[str, Any]) -> str:
+        try:
+            c = st["call"]
+            if c == "primitive":
+                t = call_quiet(R.primitive, st["resource"], dict(st["filter"]))
+            elif c == "rewrite":
+                import yaml
+                doc = yaml.safe_dump({"name": "p", "resource": st["resource"], "filters": st["filters"]})
+                t = call_quiet(R.c7n_rewrite, doc)
+            elif c == "key":
+                t = R.key_to_cel(st["key"], st["ctx"]) if st["ctx"] is not None else R.key_to_cel(st["key"])
+            elif c == "q":
+                t = R.q(st["s"], '"' if st["quote"] == "dq" else "'")
+            elif c == "secs":
+                t = R.seconds_to_duration(st["n"])
+            elif c == "age":
+                t = R.age_to_duration(st["n"])
+            elif c == "value_to_cel":
+                t = R.value_to_cel(st["key"], st["op"], st["value"], st["vt"])
+            else:
+                return "bad-step"
+            return enc(t)
+        except Exception as ex:  # noqa
+            return "raise:" + type(ex).__name__
+
+    _alone: Dict[str, str] = {}
+
+    def alone(self, st: Dict[str, Any]) -> str:
+        """the same call on a freshly executed copy of the translator module: no earlier call has touched it"""
+        import importlib.util
+        import json
+        k = json.dumps(st, sort_keys=True, default=str)
+        if k not in self._alone:
+            path = REPO / "src/xlate/c7n_to_cel.py"
+            spec = importlib.util.spec_from_file_location("c7n_to_cel_fresh", path)
+            mod = importlib.util.module_from_spec(spec)
+            spec.loader.exec_module(mod)
+            self._alone[k] = self.run_step(mod.C7N_Rewriter, st)
+        return self._alone[k]
 
     def table_entries(self) -> List[str]:
         """the bare entries of the six tables, read from the source"""
@@ -465,6 +599,17 @@ class C19(Prop):
         svals = ["abc", "", "a b", 'q"uote', "back\\slash", "new\nline", "é", "\U0001F600z", "a'b", "*", "a*c", "a?c", "{0}", "5"]
         svals += [rand_str(rng, 5) for _ in range(6 if quick else 120)]
         ivals = [0, 1, 5, -3, 42, 10 ** 12] + [rng.randint(-100, 100) for _ in range(2 if quick else 40)]
+        # strings that look like booleans / null / numbers in some spelling: they are strings, and must be
+        # compared as strings (only the exact lower-case "true"/"false" are documented as booleans)
+        lookalikes = ["True", "False", "TRUE", "FALSE", "tRuE", "fAlse", "None", "null", "NULL", "1", "0", "1.0", "-1",
+                      "yes", "no", "[]", "{}", "absent", "present", "true ", " false", "1e3", "0x10", "nan"]
+        for v in lookalikes:
+            for op in ("eq", "ne", "equal", "not-equal", "lt", "le", "ge", "in", "ni", "contains", "glob"):
+                for r in dict.fromkeys([v, v.lower(), v + "a"]):
+                    add(op, v, r, _keep=True)
+                if op in ("eq", "ne"):
+                    add(op, v, v, vt="swap", _keep=True)
+                    add(op, v, " " + v.upper() + " ", vt="normalize", _keep=True)
         for op in OPS:
             # strings
             for v in (svals if not quick else rng.sample(svals, 9) + ["abc", "back\\slash"]):
@@ -524,10 +669,13 @@ class C19(Prop):
                 for r in (v, " " + v.upper() + " ", v + "d", "\t" + v + "\n", v.title()):
                     add(op, v, r, vt="normalize")
             days = [0, 1, 30, 365, 3652] + ([rng.randint(0, 5000)] if quick else [rng.randint(0, 20000) for _ in range(8)])
+            # fractional day counts keep their whole seconds; a count below one second is still a valid (zero) duration
+            days += [1e-05, 0.5, 1.5, 0.084] if op in ("gt", "le", "eq") else []
             for d in days:
+                whole = int(d * 86400)
                 for delta in (-1, 0, 1, -86400, 86400):
-                    add(op, d, fmt_ts(NOW - d * 86400 + delta), vt="age")
-                    add(op, d, fmt_ts(NOW + d * 86400 + delta), vt="expiration")
+                    add(op, d, fmt_ts(NOW - whole + delta), vt="age")
+                    add(op, d, fmt_ts(NOW + whole + delta), vt="expiration")
         # present / absent (no op)
         for val in ("present", "absent", "not-null", "empty"):
             for r in ("x", "", None, [], ["a"], 0, 5, False, True, {"a": 1}, {}):
@@ -541,7 +689,8 @@ class C19(Prop):
                 for r in ("v1", "v0", "v2"):
                     add(op, v, r, key=key)
         if quick and len(out) > 9000:
-            keep = [c for c in out if c.get("vt") in ("age", "expiration") or c["op"] is None or c["op"] in ("le", "lte")]
+            keep = [c for c in out if c.get("vt") in ("age", "expiration") or c["op"] is None or c["op"] in ("le", "lte")
+                    or c.get("_keep")]
             rest = [c for c in out if c not in keep]
             out = keep + rng.sample(rest, 9000 - min(9000, len(keep)))
         return out
@@ -635,6 +784,8 @@ class C19(Prop):
                 return self.impl_vfrom(c)
             if k == "cel":
                 return "cel" if Real.parse(c["text"]) is not None else "notcel"
+            if k == "seq":
+                return "seq " + " ".join(self.run_step(R, st) for st in c["steps"])
         except Exception as ex:  # anything else escaping the translator is an outcome, not a harness failure
             return "EXC " + type(ex).__name__
         return "bad-kind"
@@ -757,7 +908,15 @@ class C19(Prop):
                 return None
             return f"key {enc('resource')} {enc(key)}"
         if k == "dur":
-            return f"{c['unit']} {c['n']}"
+            n = c["n"]
+            if isinstance(n, int) and not isinstance(n, bool):
+                return f"{c['unit']} {n}"
+            # fractional / textual counts: the model takes over after the code's own `int(float(...))`
+            try:
+                secs = int(float(n) * 24 * 60 * 60) if c["unit"] == "age" else int(float(n))
+            except (ValueError, OverflowError):
+                return None
+            return f"secs {secs}" if secs >= 0 else None
         if k == "cel":
             return f"cel {enc(c['text'])}" if lean_ok_str(c["text"]) else None
         if k == "emit":
@@ -857,12 +1016,29 @@ class C19(Prop):
             return (f"key {c['key']!r} -> {dec(out.split(' ')[1])!r} does not select the attribute the key names "
                     f"(evaluation gave {got})")
         if k == "dur":
-            n = c["n"] * (86400 if c["unit"] == "age" else 1)
-            if n > DUR_MAX:
-                return None     # outside what a CEL duration can hold
+            from fractions import Fraction
+            raw = c["n"]
+            try:
+                exact = Fraction(float(raw)) if not isinstance(raw, int) else Fraction(raw)
+            except (ValueError, OverflowError):
+                return None
+            exact *= (86400 if c["unit"] == "age" else 1)
+            if exact < 0 or exact > DUR_MAX:
+                return None     # outside the property (negative) / outside what a CEL duration can hold
             text, res = out.split(" ", 1)
-            if res != f"ok {n}":
-                return f"{c['unit']} count {c['n']} -> duration({dec(text)}) is {res}, not {n} seconds"
+            if exact.denominator == 1:
+                if res != f"ok {int(exact)}":
+                    return f"{c['unit']} count {raw!r} -> duration({dec(text)}) is {res}, not {int(exact)} seconds"
+                return None
+            # fractional count: the translator's contract is whole seconds ("Integer periods are seconds",
+            # tests pin age 0.084 -> "2h57s"): a valid duration of floor(count) seconds (the float product
+            # may round up across a whole second within 1e-9 relative)
+            if not res.startswith("ok "):
+                return f"{c['unit']} count {raw!r} -> duration({dec(text)}) is {res}: not a valid CEL duration"
+            d = int(res[3:])
+            lo = int(exact)          # floor, exact >= 0
+            if not (d == lo or (d == lo + 1 and (lo + 1 - exact) <= exact * Fraction(1, 10 ** 9))):
+                return f"{c['unit']} count {raw!r} -> duration({dec(text)}) is {d} s, not the whole seconds ({lo}) of the count"
             return None
         if k == "emit":
             if out.startswith("ok "):
@@ -909,6 +1085,15 @@ class C19(Prop):
             if out.startswith("raise "):
                 return f"{c['table']} / {c['resource']}: listed resource type raised {out[6:]}"
             return None
+        if k == "seq":
+            got = out.split(" ")[1:]
+            for i, (st, g) in enumerate(zip(c["steps"], got)):
+                want = self.alone(st)
+                if g != want:
+                    show = lambda t: repr(dec(t)) if t.startswith("x") else t   # noqa
+                    return (f"step {i} {st} translated after {i} earlier call(s) in the same process gives {show(g)}, "
+                            f"translated alone it gives {show(want)}: the emitted CEL depends on the translator's history")
+            return None
         if k == "vfrom":
             if not out.startswith("ok "):
                 return None
@@ -931,11 +1116,15 @@ class C19(Prop):
             return c["key"].startswith("tag:") or "." in c["key"] or any(ch in '\\"\n' for ch in c["key"])
         if k == "dur":
             n = c["n"]
+            if not isinstance(n, int):
+                return True
             return n == 0 or any(n % u == 0 for u in (60, 3600, 86400)) or n >= DUR_MAX - 1
         if k == "clause":
             return out in ("true", "false")
         if k == "table":
             return True
+        if k == "seq":
+            return len({st.get("key") or str(st.get("filter", {}).get("key")) for st in c["steps"]}) < len(c["steps"])
         if k == "vfrom":
             return "expr" in c
         return k == "emit" and out.startswith("ok ")
